@@ -308,8 +308,8 @@ Qed.
 
 Lemma pages_eqv_intro (f : Z -> body) : forall A B,
   Forall2 (fun (a b : list rrow) => Permutation (map fst a) (map fst b)) A B ->
-  (forall row, In row (concat A) -> body_eqb (f (snd (fst row))) (snd row) = true) ->
-  (forall row, In row (concat B) -> body_eqb (f (snd (fst row))) (snd row) = true) ->
+  (forall row, In row (concat A) -> unobserved (snd row) || body_eqb (f (snd (fst row))) (snd row) = true) ->
+  (forall row, In row (concat B) -> unobserved (snd row) || body_eqb (f (snd (fst row))) (snd row) = true) ->
   pages_eqv A B = true.
 Proof.
   induction 1 as [|a b A B Hp _ IH]; intros HA HB; cbn [pages_eqv]; [reflexivity|].
@@ -319,8 +319,9 @@ Proof.
     + apply forallb_forall. intros ra Hra. apply forallb_forall. intros rb Hrb.
       destruct (trip3_eqb (fst ra) (fst rb)) eqn:E; cbn [negb orb]; [|reflexivity].
       apply trip3_eqb_eq in E.
-      assert (H1 : body_eqb (f (snd (fst ra))) (snd ra) = true) by (apply HA; cbn [concat]; apply in_or_app; now left).
-      assert (H2 : body_eqb (f (snd (fst rb))) (snd rb) = true) by (apply HB; cbn [concat]; apply in_or_app; now left).
+      assert (H1 : unobserved (snd ra) || body_eqb (f (snd (fst ra))) (snd ra) = true) by (apply HA; cbn [concat]; apply in_or_app; now left).
+      assert (H2 : unobserved (snd rb) || body_eqb (f (snd (fst rb))) (snd rb) = true) by (apply HB; cbn [concat]; apply in_or_app; now left).
+      destruct (unobserved (snd ra)); [reflexivity|]. destruct (unobserved (snd rb)); [reflexivity|]. cbn [orb] in *.
       rewrite <- E in H2. eapply body_eqb_trans; [apply body_eqb_sym, H1 | exact H2].
   - apply IH; intros row Hrow; [apply HA | apply HB]; cbn [concat]; apply in_or_app; now right.
 Qed.
